@@ -15,6 +15,9 @@ fn cfg(mode: Mode, faults: bool, variant: u32) -> ScenCfg {
 const REAL_SERVER_TCP: &str = "rodbus TCP server task, rodbus server session task, MBAP parser/ReadBuffer/FrameWriter, request parsing, reply serialisation, tokio mpsc/select";
 const STUB_SERVER_TCP: &str = "network (simtokio), clock, executor, peer (director), application handlers (instrumented point memory)";
 
+const REAL_CLIENT_TCP: &str = "rodbus TCP client task (connect/retry loop, ClientLoop, request execution), Channel / CallbackSession handles, MBAP framing, request serialisation, response parsing, tokio mpsc/oneshot/select";
+const STUB_CLIENT_TCP: &str = "network (simtokio), clock, executor, peer (director), connection listener (recording)";
+
 pub fn get(prop: &str, tier: &str) -> Option<Check> {
     let t = tier == "thorough";
     let n = |quick: u64, thorough: u64| if t { thorough } else { quick };
@@ -47,6 +50,43 @@ pub fn get(prop: &str, tier: &str) -> Option<Check> {
             ],
             assumptions: vec!["TLS framing shares the MBAP parser; TLS record segmentation is exercised in C09"],
         },
+        "C03" => Check {
+            prop: "C03",
+            rule_text: "each run: a connected real TCP client; 4-24 requests over the boundary lattice {0,1,2,7,8,9,15-17,122-127,1967-1969,1976,1977,1999-2001,2008,2009,2040,2041,65534,65535,random} for start/count (ends at 65534/65535/65536), value vectors up to 65537 long, all eight kinds, arbitrary unit ids, future- and callback-style; the recording peer must see exactly model::pdu::encode in one MBAP frame (<= 260 bytes, tx id advancing by one per request taken from the queue) iff the request is within protocol limits, else zero bytes and a request error. AddressRange::try_from is checked on the same lattice. Distinct = hash of the (kind,start,count,legal) sequence.",
+            batches: vec![
+                Batch { name: "client_encoding", f: scen::client::run_encoding, cfg: cfg(Mode::LockStep, false, 0), runs: n(60_000, 2_000_000), real: REAL_CLIENT_TCP, stub: STUB_CLIENT_TCP },
+                Batch { name: "client_encoding_small_window", f: scen::client::run_encoding, cfg: cfg(Mode::LockStep, true, 0), runs: n(20_000, 500_000), real: REAL_CLIENT_TCP, stub: STUB_CLIENT_TCP },
+                Batch { name: "client_lockstep", f: scen::client::run_lockstep, cfg: cfg(Mode::LockStep, false, 0), runs: n(30_000, 500_000), real: REAL_CLIENT_TCP, stub: STUB_CLIENT_TCP },
+            ],
+            assumptions: vec!["the 2^32 AddressRange::try_from arguments are sampled on a boundary lattice, not enumerated (pure function)"],
+        },
+        "C04" => Check {
+            prop: "C04",
+            rule_text: "each run: real TCP client, lock-step; for every outstanding request the peer answers from the C04 reply grammar (correct, exception forms with every code and 0/2 trailing bytes, length -3..+3, byte-count/echo fields off by one or bit-flipped, wrong function byte, empty PDU, undefined coil value, self-consistent wrong quantity, random PDUs); completion must equal model::pdu::decode_reply (Ok data indexed from start / Exception(code) / a non-exception error). Variant 2 draws requests over the full size range. Distinct = hash of requests and reply prefixes.",
+            batches: vec![
+                Batch { name: "client_lockstep_replies", f: scen::client::run_lockstep, cfg: cfg(Mode::LockStep, false, 2), runs: n(80_000, 3_000_000), real: REAL_CLIENT_TCP, stub: STUB_CLIENT_TCP },
+                Batch { name: "client_lockstep", f: scen::client::run_lockstep, cfg: cfg(Mode::LockStep, false, 0), runs: n(40_000, 1_000_000), real: REAL_CLIENT_TCP, stub: STUB_CLIENT_TCP },
+                Batch { name: "client_encoding", f: scen::client::run_encoding, cfg: cfg(Mode::LockStep, false, 0), runs: n(20_000, 500_000), real: REAL_CLIENT_TCP, stub: STUB_CLIENT_TCP },
+            ],
+            assumptions: vec!["byte-count field of read replies is not examined (length is)"],
+        },
+        "C10" | "C11" | "C12" | "C13" | "C14" => {
+            let (p, text): (&'static str, &'static str) = match prop {
+                "C10" => ("C10", "each run: real TCP client task with future- and callback-style handles, 5-40 director actions over {submit, reply correct/variant/split around the deadline, stale/duplicate/future/unsolicited frames, invalid header, EOF, read error, armed write error, enable, disable, set-decode, shutdown, drop handles, abort task, advance time relative to the next deadline (half, -1ns, exact, +1ns, 3x), clock jump, server up/down, slow/refused connect plans}; after every action all completions (id, virtual instant, result class and data) must equal model::client exactly; each request completes exactly once; after the final shutdown + 61 s nothing is pending."),
+                "C11" => ("C11", "same lock-step runs as C10; oracle: bytes on the wire equal the model's frames (submission order, one outstanding, MBAP tx id 0,1,2,... per request taken from the queue, persisting across reconnects) and completions after stale/duplicate/future/unsolicited frames equal the model (discarded). One variant runs 66 000 consecutive requests across the 16-bit wrap."),
+                "C12" => ("C12", "same lock-step runs as C10 with per-request timeouts from {1 ms..60 s} and max_response_timeouts in {none,1,2,3,5}; oracle: a timeout completes exactly at transmission instant + its timeout (virtual ns), a reply completing strictly before succeeds (replies split with the last byte 1 ns before / after the deadline), the connection is dropped (WaitAfterDisconnect) after exactly N consecutive timeouts and never otherwise."),
+                "C13" => ("C13", "same lock-step runs as C10; oracle: the listener sequence with virtual instants equals model::client (Disabled first; Connecting only while enabled; Connected directly after Connecting; wait state after every failed connect / lost connection; Disabled after disable; Shutdown once and last), connect attempts seen by the simulated network equal the model's (none while disabled), requests while not connected complete NoConnection at the dequeue instant, the connection is closed on disable/shutdown, task end equals the model, handles report shutdown afterwards."),
+                _ => ("C14", "same lock-step runs as C10 with retry (min,max) from {1,50,1000 ms} x {1,2,8,60}; oracle: the delay carried by WaitAfterFailedConnect/WaitAfterDisconnect equals model::retry (min*2^(k-1) capped, min after disconnect, reset after success) and the next connect attempt seen by the simulated network happens exactly that long after the notification."),
+            };
+            let mut batches = vec![
+                Batch { name: "client_lockstep", f: scen::client::run_lockstep, cfg: cfg(Mode::LockStep, false, 0), runs: n(150_000, 5_000_000), real: REAL_CLIENT_TCP, stub: STUB_CLIENT_TCP },
+                Batch { name: "client_lockstep_faults", f: scen::client::run_lockstep, cfg: cfg(Mode::LockStep, true, 0), runs: n(50_000, 1_500_000), real: REAL_CLIENT_TCP, stub: STUB_CLIENT_TCP },
+            ];
+            if p == "C11" {
+                batches.push(Batch { name: "client_txid_wrap", f: scen::client::run_lockstep, cfg: cfg(Mode::LockStep, false, 1), runs: n(2, 16), real: REAL_CLIENT_TCP, stub: STUB_CLIENT_TCP });
+            }
+            Check { prop: p, rule_text: text, batches, assumptions: vec!["lock-step runs use the canonical schedule (FIFO ready queue, select! start index 0) for which the exact model is defined; free interleavings are explored by the racy batches"] }
+        }
         _ => return None,
     })
 }
